@@ -5,6 +5,10 @@ from framework import Case
 from c01 import data_str, idx_str, true_code
 
 PROP = 'C10'
+# the translator of C01 also reads reason_shortest_path_between_causes and get_shortest_path; Props/C01Gen.lean proves them equal
+# to Model.CausalGraph.reasonShortest (reason_shortest_path_eq, path_loop_eq, get_shortest_path_eq; c10gen_*)
+TRANSLATORS = ['reasoning']
+EXTRA_THEOREM_MODULES = ['DcVerif.Props.C01Gen']
 RULE = ('weighted digraphs (cycles, self-loops, zero weights allowed): random sparse/dense, grids with equal-weight ties, '
         '"detour" gadgets (a direct edge against a chain that is cheaper / equal / dearer), layered DAGs, disconnected parts; '
         'n <= 12 quick / <= 40 thorough; ids = index | permuted | sparse, functions plain / inverted / contextual; for each graph '
